@@ -11,7 +11,7 @@ EXTENDS Naturals, Sequences, FiniteSets, TLC
 CONSTANTS MaxKex,        \* key exchanges per connection (2 = one re-key)
           HLen,          \* digest length of the key-exchange hash (20, 32, 48, 64)
           IvLen, KeyLen, MacLen,   \* what the negotiated cipher / MAC need
-          Mutations      \* subset of {"swap", "last", "sid", "oldhash"}: defects a behaviour may start with (see mut)
+          Mutations      \* subset of {"swap", "last", "sid", "oldhash", "engreuse"}: defects a behaviour may start with (see mut)
 
 Roles == {"client", "server"}
 Dirs  == {"out", "in"}
@@ -44,6 +44,8 @@ VARIABLES mut,     \* "none" = the code as it is; otherwise one seeded defect, f
                    \*   "swap": letters of the two directions exchanged in BOTH roles (symmetric bug)
                    \*   "last": extension hashes only the last digest, not K1 || ... || Ki
                    \*   "sid":  session id overwritten at re-key
+                   \*   "engreuse": the cipher engine object of a direction is built once and kept across key exchanges:
+                   \*               the derived key is right, the key the engine encrypts with is the first exchange's
                    \*   "oldhash": the hash function of the FIRST exchange is kept for the key derivation of later ones
           kex,     \* key exchanges completed so far (both sides know K and H of exchange number kex)
           sid,     \* session identifier
@@ -84,6 +86,9 @@ SetKH == /\ kex < MaxKex
 Keys(role, dir) == [kex |-> kex,
                     iv  |-> ComputeKey(kex, sid, CodeLetter(role, dir, "iv"), IvLen),
                     key |-> ComputeKey(kex, sid, CodeLetter(role, dir, "key"), KeyLen),
+                    \* _get_engine(name, key, iv, ...): the key the cipher object of this direction really works with
+                    eng |-> IF mut = "engreuse" /\ inst[role][dir].kex > 0 THEN inst[role][dir].eng
+                            ELSE ComputeKey(kex, sid, CodeLetter(role, dir, "key"), KeyLen),
                     mac |-> ComputeKey(kex, sid, CodeLetter(role, dir, "mac"), MacLen)]
 ActivateOutbound(r) == /\ kex > 0 /\ inst[r]["out"].kex < kex
                        /\ inst' = [inst EXCEPT ![r]["out"] = Keys(r, "out")]
@@ -102,6 +107,9 @@ Installed(r, d) == inst[r][d].kex > 0
 \* exactly the RFC derivation, with the RFC letters, from the session id of the FIRST exchange
 Rfc72 == \A r \in Roles, d \in Dirs : Installed(r, d) =>
             \A w \in Whats : inst[r][d][w] = RfcKey(inst[r][d].kex, ExHash(1), RfcLetter(C2S(r, d), w), Need(w))
+\* the keys IN USE are the derived ones: the engine of every direction works with the encryption key of its exchange
+EngineUsesDerived == \A r \in Roles, d \in Dirs : Installed(r, d) =>
+            inst[r][d].eng = RfcKey(inst[r][d].kex, ExHash(1), RfcLetter(C2S(r, d), "key"), KeyLen)
 \* a client's outbound keys are the server's inbound keys and vice versa
 DirectionsMatch == \A r \in Roles : (Installed(r, "out") /\ inst[Peer(r)]["in"].kex = inst[r]["out"].kex)
                                        => inst[r]["out"] = inst[Peer(r)]["in"]
@@ -114,9 +122,9 @@ NeverShared == \A x \in AllKeys, y \in AllKeys :
 \* the loop of _compute_key = the RFC's K1 || K2 || ... for every letter and length up to 4 digests
 LoopIsRfc == \A X \in {"A", "B", "C", "D", "E", "F"}, n \in 1..(4 * HLen) : kex > 0 =>
                 ComputeKey(kex, sid, X, n) = RfcKey(kex, sid, X, n)
-Correct == Rfc72 /\ DirectionsMatch /\ NeverShared /\ LoopIsRfc
+Correct == Rfc72 /\ EngineUsesDerived /\ DirectionsMatch /\ NeverShared /\ LoopIsRfc
 \* what is checked: the code as it is satisfies everything ...
 Holds  == mut = "none" => Correct
 \* ... and each seeded defect is noticed by at least one of the properties (they are not vacuous)
-Caught == (mut # "none" /\ ~Correct) => PrintT(<<"CAUGHT", mut, ~Rfc72, ~DirectionsMatch, ~NeverShared, ~LoopIsRfc>>)
+Caught == (mut # "none" /\ ~Correct) => PrintT(<<"CAUGHT", mut, ~Rfc72 \/ ~EngineUsesDerived, ~DirectionsMatch, ~NeverShared, ~LoopIsRfc>>)
 =============================================================================
